@@ -440,6 +440,15 @@ def build_p16(ctx):
     pair("P16:any_value::AnyValueCloneable::lazy_clone:4-move-drop-source", "source handle consumed while a lazy clone of it is alive",
          "    let mut v = mk();\n    let mut w = mk();\n    let e = v.swap_remove(0);\n    let l = e.lazy_clone();\n    w.push(e);\n    w.push(l);",
          "    let mut v = mk();\n    let mut w = mk();\n    let e = v.swap_remove(0);\n    let l = e.lazy_clone();\n    w.push(l);\n    w.push(e);")
+    pair("P16:any_value::lazy_clone::LazyClone::new:1-mutate-source", "LazyClone::new(&element) kept across a mutation of the source vector",
+         "    let mut v = mk();\n    let e = v.at(0);\n    let l = LazyClone::new(&*e);\n    v.clear();\n    keep(&l);",
+         "    let mut v = mk();\n    let e = v.at(0);\n    let l = LazyClone::new(&*e);\n    keep(&l);\n    v.clear();")
+    pair("P16:any_value::lazy_clone::LazyClone::new:5-escape-scope", "LazyClone::new(&handle) outliving the handle",
+         "    let mut v = mk();\n    let l;\n    {\n        let e = v.swap_remove(0);\n        l = LazyClone::new(&e);\n    }\n    keep(&l);",
+         "    let mut v = mk();\n    {\n        let e = v.swap_remove(0);\n        let l;\n        l = LazyClone::new(&e);\n        keep(&l);\n    }")
+    pair("P16:any_value::lazy_clone::LazyClone::new:4-move-drop-source", "source handle consumed while a LazyClone::new of it is alive",
+         "    let mut v = mk();\n    let mut w = mk();\n    let e = v.swap_remove(0);\n    let l = LazyClone::new(&e);\n    w.push(e);\n    w.push(l);",
+         "    let mut v = mk();\n    let mut w = mk();\n    let e = v.swap_remove(0);\n    let l = LazyClone::new(&e);\n    w.push(l);\n    w.push(e);")
     pair("P16:drained-item:1-mutate-source", "a drained item kept across a mutation of the vector",
          "    let mut v = mk();\n    let e = v.drain(..).next().unwrap();\n    v.clear();\n    keep(&e);\n    drop(e);",
          "    let mut v = mk();\n    let e = v.drain(..).next().unwrap();\n    keep(&e);\n    drop(e);\n    v.clear();")
